@@ -746,10 +746,11 @@ func (b *broker) trySend(sess *wamp.Session, msg wamp.Message) {
 }
 
 func prepareEvent(pub *wamp.Session, msg *wamp.Publish, pubID wamp.ID, sub *subscription, sendTopic, disclose bool, eventDetails wamp.Dict, subscriber *wamp.Session) *wamp.Event { //nolint:lll
-	details := eventDetails
-	if details == nil {
-		details = wamp.Dict{}
-	}
+	// Each event gets its own details, because items specific to the
+	// subscription (topic) and to the subscriber (publisher identity) are
+	// added to them below.
+	details := make(wamp.Dict, len(eventDetails))
+	maps.Copy(details, eventDetails)
 
 	event := &wamp.Event{
 		Publication:  pubID,
